@@ -47,6 +47,10 @@ ASSUMPTIONS = [
     'global variables are resolved among themselves and stored in place before components are resolved '
     '(FlowIRConcrete.instance): a global whose transitive mentions are all globals is a constant for the components',
     'the rendering of a structured workflow into a FlowIR dictionary (harness) is trusted',
+    'option values hold no variable references (the fill_in that precedes convert_component_types is the identity on '
+    'them); int()/float() of a string are modelled for the plain spellings [+-]?[0-9]+ and digits with at most one '
+    'point (no exponent, inf/nan, blanks, underscores); values coerced to a backend/environment/interpreter/executable '
+    'NAME are not explored (the lookup of the name is outside the model)',
     'graphFromFlowIR is loaded with primitive=False: with the default primitive=True the loader does not look for '
     'cycles at all (the property speaks about the expanded graph)',
 ]
@@ -513,7 +517,7 @@ def convert_cases(ctx):
             continue
         terms.append(term)
         metas.append((d, impl))
-        ctx.case(('D', json.dumps(d, sort_keys=True, default=str)), impl is None)
+        ctx.case(('D', repr(d)), impl is None)
         ctx.count('D:raises' if impl is None else 'D:converted')
     bad = ctx.model_mismatches(HEADER, terms, 'check_convert_case', chunk=400, name='convert')
     for i in bad:
@@ -663,6 +667,11 @@ def set_path(doc, p, k, v):
     return True
 
 
+# str options whose VALUE is a name that the loader looks up beyond the schema (a backend, an environment, an
+# interpreter, an executable): str(7) is a well typed but unknown name - outside the model, only the wrongly typed
+# values are explored there
+NAME_OPTIONS = {('resourceManager', 'config', 'backend'), ('command', 'environment'), ('command', 'executable'),
+                ('command', 'interpreter'), ('command', 'arguments')}
 INT_RE = re.compile(r'[+-]?[0-9]+$')
 FLOAT_RE = re.compile(r'[+-]?([0-9]+(\.[0-9]*)?|\.[0-9]+)$')
 MEM_RE = re.compile(r'[+-]?[0-9]+(Mi|Gi)?$')
@@ -815,7 +824,7 @@ def load_mutants(w, tier, rng, corpus=False):
             cand = CORPUS_SCALARS + cand
         for pth, v in cand:
             faulty = scalar_fault(pth, v)
-            if faulty is None:
+            if faulty is None or (not faulty and tuple(pth) in NAME_OPTIONS):
                 continue
             m = fresh()
             finalize(m)
@@ -1091,8 +1100,9 @@ def run(ctx):
         items.extend(load_mutants(w, ctx.tier, ctx.rng, corpus=(w is wfs[0] or w is wfs[1])))
     explore_loads(ctx, items)
     ctx.rule = ('A: a document with at least one schema error; B: a single-fault mutant (drop/rename/add edge/duplicate '
-                'name/unknown key/wrong type/remove variable/one more mention among the variables) of a generated 2-5 component workflow; '
-                'C: every (named predicate, value) pair')
+                'name/unknown key/wrong type: a list or a scalar of another type/remove variable/one more mention among '
+                'the variables) of a generated 2-5 component workflow with aggregating and replicating components; '
+                'C: every (named predicate, value) pair; D: a one-option document on which convert_component_types raises')
     ctx.extra['mutants_per_workflow'] = 'all positions for the structural faults; quick tier samples 6 of %d option ' \
         'sections and 13 of %d option leaves per component, thorough takes all' % (
             len(SCHEMA_OBJS['sections']), len(SCHEMA_OBJS['leaves']))
